@@ -18,7 +18,8 @@ RULE = (
 ASSUMPTIONS = ["port texts in Python's lenient int() grammar are a gray zone: if accepted the value must equal int(text) and be in range"]
 
 DEFAULT = {"http": 80, "https": 443, "ws": 80, "wss": 443, "ftp": 21}
-SCHEMES = ["http", "https", "ws", "wss", "ftp", "foo", "file", ""]
+# (the last four LOOK like schemes with a default port - compound, prefixed, suffixed - and have none)
+SCHEMES = ["http", "https", "ws", "wss", "ftp", "foo", "file", "", "http+unix", "wss+x", "httpx", "ftps"]
 PORTS_OK = [None, 0, 1, 20, 21, 22, 79, 80, 81, 442, 443, 444, 8080, 65534, 65535]
 
 
@@ -298,6 +299,19 @@ def run(ctx):
                         ue = guarded(URL, s, encoded=True) if hk != "idn" else None
                         if ue is not None and not is_exc(ue):
                             verify(ctx, "text-encoded", {"route": "text-encoded", "s": s}, ue, scheme, p, hk, ("text-enc",) + sig)
+                    # route 1b: join - the port travels with the authority: written in a network-path reference (the scheme comes from
+                    # the base), in a complete same-scheme reference, and inherited from the base by a path-only reference
+                    if scheme in DEFAULT and not is_exc(u):  # (join() resolves references only for the schemes urllib lists as relative)
+                        auth_ = uitext + htext + (f":{p}" if p is not None else "")
+                        for jl, mk_ in (("join-netpath", lambda: URL(f"{scheme}://base.example/x/y").join(URL(f"//{auth_}/p?q#f"))),
+                                        ("join-full", lambda: URL(f"{scheme}://base.example/x/y").join(URL(f"{scheme}://{auth_}/p?q#f"))),
+                                        ("join-inherit", lambda: u.join(URL("z/../w?k")))):
+                            ju = guarded(mk_)
+                            jcase = {"route": jl, "scheme": scheme, "authority": auth_}
+                            if is_exc(ju):
+                                ctx.fail("valid_rejected", jcase, f"{jl} raised {ju!r}")
+                            else:
+                                verify(ctx, jl, jcase, ju, scheme, p, hk, (jl,) + sig)
                     # route 2: build(host, port)
                     case = {"route": "build", "kw": {**kw, "port": p}}
                     u = guarded(lambda: URL.build(port=p, path="/p", **kw))
